@@ -9,12 +9,19 @@ import (
 )
 
 // allMons attaches every universal monitor.
-func allMons(extra ...mc.Monitor) func(w *mc.World) []mc.Monitor {
+func allMons(extra ...func() mc.Monitor) func(w *mc.World) []mc.Monitor {
 	return func(w *mc.World) []mc.Monitor {
 		m := []mc.Monitor{&mc.ClientMon{}, &mc.ConvMon{}, &mc.CacheMon{}, &mc.SubjectMon{}, &mc.CountMon{}, &mc.IsoMon{}, &mc.AccessMon{}, &mc.DiscMon{}}
-		return append(m, extra...)
+		for _, f := range extra {
+			m = append(m, f())
+		}
+		return m
 	}
 }
+
+func queryMon() mc.Monitor    { return &mc.QueryMon{} }
+func seqMon() mc.Monitor      { return &mc.SeqMon{} }
+func seqMonRelax() mc.Monitor { return &mc.SeqMon{Relaxed: true} }
 
 func basicInit(w *mc.World) {
 	s := w.Svc
@@ -133,9 +140,11 @@ func countScenarios(tier string) []*mc.Scenario {
 		Conns: []mc.ConnSpec{conn(latest,
 			syncReq("call.test.m.ref", "", 0), syncReq("new.test.c", "", 0), syncReq("unsubscribe.test.x", `{"count":2}`, 0),
 			syncReq("call.test.m.set", "", 0), syncReq("auth.test.m.ref", "", 0), syncReq("unsubscribe.test.x", "", 0), syncReq("unsubscribe.test.x", "", 0))},
+		// get failures of a resource response are kept out: whether such a
+		// response counts as a direct subscription is left open by the statement
 		Menu: func(w *mc.World, r *mc.Req) []mc.Outcome {
-			if subjectIs(r, "get.") {
-				return []mc.Outcome{w.OK(r), mc.Timeout()}
+			if subjectIs(r, "call.") && strings.HasSuffix(r.Subject, ".set") {
+				return []mc.Outcome{w.OK(r), mc.Timeout(), mc.ResErr("system.invalidParams")}
 			}
 			return nil
 		},
@@ -150,8 +159,6 @@ func countScenarios(tier string) []*mc.Scenario {
 		}}},
 		Menu: func(w *mc.World, r *mc.Req) []mc.Outcome {
 			if subjectIs(r, "access.") {
-				if n := w.Data["acc"]; n != nil {
-				}
 				return []mc.Outcome{w.OK(r), mc.Raw("deny", `{"result":{"get":false}}`), mc.Timeout()}
 			}
 			return nil
@@ -235,7 +242,7 @@ func cacheScenarios(tier string) []*mc.Scenario {
 		},
 	})
 	out = append(out, &mc.Scenario{
-		Name: "cache/query", Props: append(props, "C13"), Init: queryInit(map[string]string{"a": "n", "b": "n"}), Monitors: allMons(&mc.QueryMon{}),
+		Name: "cache/query", Props: append(props, "C13"), Init: queryInit(map[string]string{"a": "n", "b": "n"}), Monitors: allMons(queryMon),
 		Conns: []mc.ConnSpec{
 			conn(latest, req("subscribe.test.q?a", 0), req("subscribe.test.q?b", 0), req("unsubscribe.test.q?a", 1)),
 			conn(latest, req("subscribe.test.q?n", 0), req("subscribe.test.q", 1)),
